@@ -1844,6 +1844,13 @@ package resolve
 
 //@ func Loader.prepareEntityFetch
 //@   requires l != nil && l.ctx != nil && prepared != nil && res != nil
+//@   ghost var g_written bool = false
+//@   ghost var g_repArr int = 0
+//@   ghost var g_repLen int = 0 - 1
+//@   at call Buffer.Bytes: ghost g_repArr = ite(arg0 == item && !g_written, arr(result), g_repArr)
+//@   at call Buffer.Bytes: ghost g_repLen = ite(arg0 == item && !g_written, len(result), g_repLen)
+//@   at call Buffer.WriteTo: ghost g_written = g_written || arg0 == item
+//@   at call Sum64: assert {the.entity.hash.covers.the.representation.that.is.sent} arr(arg0) == g_repArr && len(arg0) == g_repLen
 //@   ghost var g_keyed bool = false
 //@   ghost var g_keyArr int = 0
 //@   ghost var g_keyLen int = 0
